@@ -188,6 +188,17 @@ func CoverageCounts() (sites2 int, pairs int) {
 	return
 }
 
+// SitesHit lists the sites executed while >=2 clients were live.
+func SitesHit() []int {
+	var out []int
+	for i, b := range s.siteSeen2 {
+		if b != 0 {
+			out = append(out, i)
+		}
+	}
+	return out
+}
+
 // Active reports whether a simulated run is in progress.
 //
 //go:norace
